@@ -176,5 +176,8 @@ func hWidthLists() {
 	}
 }
 
+// H_C01_int_width_lists: integer slices of different widths side by side (see hWidthLists).
 func H_C01_int_width_lists() { hWidthLists() }
+
+// H_C07_int_width_lists: the same harness under C07 (every element decodes to exactly the same number).
 func H_C07_int_width_lists() { hWidthLists() }
